@@ -231,4 +231,241 @@ theorem computeAmbiguity_generated_eq (mn mx : ℚ) (etas : List ℚ) (c : Curve
     simp [reshapeRowsOk, length_repeatEach, sameLen, full, embedQ, zip2, hlen, length_twoDimEtas, mapR, maskSet, ofInt,
       countTrue, Nat.mul_comm, toNat_mul_cast]
 
+
+/-! ## `compute_risk` -/
+
+def natFl (d : Nat) : Fl := .fin (d : ℚ)
+
+/-- a cell of `disp_cv`: a disparity index, or NaN once discarded -/
+def optNatFl : Option Nat → Fl
+  | none => .nan
+  | some d => .fin (d : ℚ)
+
+theorem nanminAux_optNat (l : List (Option Nat)) :
+    nanminAux (l.map optNatFl) = (lminNat (l.filterMap id)).map natFl := by
+  induction l with
+  | nil => rfl
+  | cons v l ih =>
+    cases v with
+    | none =>
+      have : (none :: l).filterMap id = l.filterMap id := rfl
+      rw [this, ← ih]
+      simp only [List.map_cons, optNatFl, nanminAux, Fl.isNan]
+      cases nanminAux (List.map optNatFl l) <;> rfl
+    | some d =>
+      have : (some d :: l).filterMap id = d :: l.filterMap id := rfl
+      rw [this]
+      simp only [List.map_cons, optNatFl, nanminAux, lminNat, Fl.isNan] at ih ⊢
+      rw [ih]
+      cases lminNat (l.filterMap id) with
+      | none => rfl
+      | some m =>
+        simp only [Option.map_some, natFl, le_fin, Bool.false_eq_true, if_false, Nat.cast_le]
+        by_cases h : d ≤ m <;> simp [h]
+
+theorem nanmaxAux_optNat (l : List (Option Nat)) :
+    nanmaxAux (l.map optNatFl) = (lmaxNat (l.filterMap id)).map natFl := by
+  induction l with
+  | nil => rfl
+  | cons v l ih =>
+    cases v with
+    | none =>
+      have : (none :: l).filterMap id = l.filterMap id := rfl
+      rw [this, ← ih]
+      simp only [List.map_cons, optNatFl, nanmaxAux, Fl.isNan]
+      cases nanmaxAux (List.map optNatFl l) <;> rfl
+    | some d =>
+      have : (some d :: l).filterMap id = d :: l.filterMap id := rfl
+      rw [this]
+      simp only [List.map_cons, optNatFl, nanmaxAux, lmaxNat, Fl.isNan] at ih ⊢
+      rw [ih]
+      cases lmaxNat (l.filterMap id) with
+      | none => rfl
+      | some m =>
+        simp only [Option.map_some, natFl, le_fin, Bool.false_eq_true, if_false, Nat.cast_le]
+        by_cases h : m ≤ d <;> simp [h]
+
+/-- `max_disp[i] - min_disp[i]` of one column of `disp_cv` -/
+theorem spread_embed (l : List (Option Nat)) :
+    Fl.sub (nanmax (l.map optNatFl)) (nanmin (l.map optNatFl)) = optNan (spreadOpt (l.filterMap id)) := by
+  unfold nanmax nanmin spreadOpt
+  rw [nanminAux_optNat, nanmaxAux_optNat]
+  cases lminNat (l.filterMap id) <;> cases lmaxNat (l.filterMap id) <;> simp [natFl, optNan, Fl.sub, Fl.neg, Fl.add, sub_eq_add_neg]
+
+theorem sumFl_fin (xs : List ℚ) : sumFl (xs.map Fl.fin) = .fin (sumRat xs) := by
+  induction xs with
+  | nil => rfl
+  | cons x xs ih => simp only [sumFl, sumRat, List.map_cons, List.foldr_cons] at ih ⊢; rw [ih]; rfl
+
+theorem filter_optNan (l : List (Option ℚ)) :
+    (l.map optNan).filter (fun x => !x.isNan) = (l.filterMap id).map Fl.fin := by
+  induction l with
+  | nil => rfl
+  | cons v l ih =>
+    cases v with
+    | none =>
+      have : (none :: l).filterMap id = l.filterMap id := rfl
+      rw [this, ← ih]; rfl
+    | some q =>
+      have : (some q :: l).filterMap id = q :: l.filterMap id := rfl
+      rw [this]
+      show _ = Fl.fin q :: List.map Fl.fin (List.filterMap id l)
+      rw [← ih]; rfl
+
+/-- `np.nanmean` of a vector of finite numbers and NaNs -/
+theorem nanmean_embed (l : List (Option ℚ)) : nanmean (l.map optNan) = Fl.ofVal (nanMean l) := by
+  unfold nanmean nanMean
+  simp only [filter_optNan]
+  cases h : l.filterMap id with
+  | nil => rfl
+  | cons x xs =>
+    have hne : (((x :: xs).length : Nat) : ℚ) ≠ 0 := by simp; positivity
+    simp only [List.isEmpty_cons, Bool.false_eq_true, if_false, sumFl_fin, ofInt, PyVec.len, List.length_map,
+      Int.cast_natCast, List.isEmpty_map]
+    rw [fdiv_fin _ _ hne]
+    rfl
+
+theorem lt_fin_optNinf (o : Option ℚ) (t : ℚ) : Fl.lt (.fin t) (optNinf o) = !leExt o t := by
+  cases o with
+  | none => rfl
+  | some v =>
+    simp only [optNinf, leExt, lt_fin]
+    by_cases h : v ≤ t
+    · simp [h, not_lt.mpr h]
+    · simp [h, lt_of_not_ge h]
+
+theorem zip2_lt_embed (a : List (Option ℚ)) (b : List ℚ) :
+    zip2 Fl.lt (embedQ b) (a.map optNinf) = (List.zipWith leExt a b).map (fun x => !x) := by
+  induction a generalizing b with
+  | nil => cases b <;> simp [zip2, embedQ]
+  | cons o a ih =>
+    cases b with
+    | nil => simp [zip2, embedQ]
+    | cons t b =>
+      simp only [zip2, embedQ, List.map_cons, List.zipWith_cons_cons] at ih ⊢
+      rw [ih, lt_fin_optNinf]
+
+/-- the mask `normalized_cv > normalized_min_cost + two_dim_etas` is the negation of `pixelCmp` -/
+theorem gt_embed (mn mx : ℚ) (etas : List ℚ) (c : Curve) (m : ℚ) (hr : mx ≠ mn) (hc : 0 < c.length) :
+    zip2 Fl.lt
+        (zip2 Fl.add (full (Fl.fin ((m - mn) / (mx - mn))) (((c.length * etas.length : Nat)) : Int))
+          (embedQ (twoDimEtas etas c.length)))
+        (repeatEach ((c.map (normNeg mn mx)).map optNinf) (etas.length : Int))
+      = (pixelCmp mn mx etas c m).map (fun b => !b) := by
+  rw [repeatEach_map, repeatEach_eq, full_fin, zip2_add_embed, zip2_lt_embed]
+  rfl
+
+/-- `np.arange(nb_disps) * 1.0` -/
+theorem disp0_embed (nd : Nat) :
+    mapR Fl.mul (intsToFl (PyVec.arange (nd : Int))) (Fl.fin 1) = (List.range nd).map natFl := by
+  simp [mapR, intsToFl, PyVec.arange, ofInt, natFl, Fl.mul]
+
+/-- the hand model's `disp_cv` (flat) -/
+def dispCvHand (mn mx : ℚ) (etas : List ℚ) (c : Curve) (m : ℚ) : List (Option Nat) :=
+  List.zipWith (fun d keep => if keep then some d else none) (npRepeat (List.range c.length) etas.length)
+    (pixelCmp mn mx etas c m)
+
+theorem disp2_embed (mn mx : ℚ) (etas : List ℚ) (c : Curve) (m : ℚ) :
+    maskSet (repeatEach ((List.range c.length).map natFl) (etas.length : Int))
+        ((pixelCmp mn mx etas c m).map (fun b => !b)) Fl.nan
+      = (dispCvHand mn mx etas c m).map optNatFl := by
+  rw [repeatEach_map, repeatEach_eq]
+  simp only [maskSet, dispCvHand, List.zipWith_map, List.map_zipWith]
+  congr 1
+  funext d keep
+  cases keep <;> rfl
+
+theorem chunks_map {α β : Type} (f : α → β) (k n : Nat) (l : List α) :
+    PyVec.chunks k n (l.map f) = (Confidence.chunks k n l).map (List.map f) := by
+  induction n generalizing l with
+  | zero => rfl
+  | succ n ih => simp only [PyVec.chunks, Confidence.chunks, List.map_cons, ← List.map_drop, ← List.map_take, ih]
+
+theorem length_chunks {α : Type} (k n : Nat) (l : List α) : (Confidence.chunks k n l).length = n := by
+  induction n generalizing l with
+  | zero => rfl
+  | succ n ih => simp [Confidence.chunks, ih]
+
+theorem column_map (M : List (List (Option Nat))) (i : Nat) :
+    PyVec.column Fl.nan (M.map (List.map optNatFl)) (i : Int) = (Confidence.column none M i).map optNatFl := by
+  simp only [PyVec.column, Confidence.column, List.map_map, Int.toNat_natCast]
+  apply List.map_congr_left
+  intro r _
+  simp only [Function.comp, List.getD_eq_getElem?_getD, List.getElem?_map]
+  cases r[i]? <;> rfl
+
+theorem tabulate_eq {α : Type} (n : Nat) (f : Int → α) :
+    tabulate (n : Int) f = (List.range n).map (fun (i : Nat) => f (i : Int)) := by
+  unfold tabulate
+  rw [Int.toNat_natCast]
+
+/-- `max_disp - min_disp` -/
+theorem spreads_embed (M : List (List (Option Nat))) (ne : Nat) :
+    zip2 Fl.sub
+        (tabulate (ne : Int) (fun i => nanmax (PyVec.column Fl.nan (M.map (List.map optNatFl)) i)))
+        (tabulate (ne : Int) (fun i => nanmin (PyVec.column Fl.nan (M.map (List.map optNatFl)) i)))
+      = ((List.range ne).map (fun i => spreadOpt ((Confidence.column none M i).filterMap id))).map optNan := by
+  rw [tabulate_eq, tabulate_eq, zip2, zipWith_map_map, List.map_map]
+  apply List.map_congr_left
+  intro i _
+  simp only [Function.comp, column_map, spread_embed]
+
+theorem riskMin_embed (spread : List (Option ℚ)) (sampled : List Nat) :
+    zip2 Fl.sub (mapL Fl.add (Fl.fin 1) (spread.map optNan)) (embedQ (sampled.map (fun (a : Nat) => (a : ℚ))))
+      = (List.zipWith (fun s a => s.map (fun s => (1 + s) - ((a : Nat) : ℚ))) spread sampled).map optNan := by
+  simp only [zip2, mapL, embedQ, List.map_map, List.zipWith_map, List.map_zipWith]
+  congr 1
+  funext s a
+  cases s <;> simp [optNan, Fl.sub, Fl.neg, Fl.add, sub_eq_add_neg]
+
+theorem length_pixelCmp (mn mx : ℚ) (etas : List ℚ) (c : Curve) (m : ℚ) (hc : 0 < c.length) :
+    (pixelCmp mn mx etas c m).length = c.length * etas.length := by
+  rw [pixelCmp_eq mn mx etas c m hc]
+  simp [List.length_flatMap, sum_map_const]
+
+theorem length_dispCvHand (mn mx : ℚ) (etas : List ℚ) (c : Curve) (m : ℚ) (hc : 0 < c.length) :
+    (dispCvHand mn mx etas c m).length = c.length * etas.length := by
+  simp [dispCvHand, length_pixelCmp mn mx etas c m hc, length_npRepeat]
+
+/-- **`compute_risk`: the generated per-pixel function is the hand model.**  For every cost curve (at least one
+    disparity), every eta grid, every sampled-ambiguity vector of the grid's length and every pair of global extremes
+    with `max_cost ≠ min_cost`, the function the source defines today returns `(risk_max, risk_min) = pixelRisk` — and
+    `Res.ok`. -/
+theorem computeRisk_generated_eq (mn mx : ℚ) (etas : List ℚ) (c : Curve) (sampled : List Nat)
+    (hr : mx ≠ mn) (hc : c ≠ []) (hs : sampled.length = etas.length) :
+    computeRiskPx (embedCurve c) (embedQ (sampled.map (fun (a : Nat) => (a : ℚ)))) (Fl.fin mn) (Fl.fin mx) (embedQ etas)
+      = .ok (Fl.ofVal (pixelRisk mn mx etas c sampled).1, Fl.ofVal (pixelRisk mn mx etas c sampled).2) := by
+  have hlen : 0 < c.length := List.length_pos_iff.mpr hc
+  have h0 : mx - mn ≠ 0 := sub_ne_zero.mpr hr
+  have hnd : PyVec.len (embedCurve c) = (c.length : Int) := by simp [PyVec.len, embedCurve]
+  have hne : PyVec.len (embedQ etas) = (etas.length : Int) := by simp [PyVec.len, embedQ]
+  have hnonempty : nonEmpty (embedCurve c) = true := by
+    cases c with
+    | nil => exact absurd rfl hc
+    | cons a l => rfl
+  simp only [computeRiskPx, hnd, hne, twoDim_embed etas c.length hlen, nanmin_embed, sub_fin, hnonempty]
+  simp only [pixelRisk, pixelBest]
+  cases hm : lmin (numsOf c) with
+  | none =>
+    simp [optNan, Fl.isNan, reshapeRowsOk, length_repeatEach, embedQ, hlen, Fl.ofVal]
+  | some m =>
+    have e1 : ((c.length : Int) * (etas.length : Int)) = ((c.length * etas.length : Nat) : Int) := by push_cast; ring
+    have hresh : reshape2 ((dispCvHand mn mx etas c m).map optNatFl) (c.length : Int) (etas.length : Int)
+        = (Confidence.chunks etas.length c.length (dispCvHand mn mx etas c m)).map (List.map optNatFl) := by
+      simp [reshape2, chunks_map]
+    simp only [optNan, sub_fin, fdiv_fin _ _ h0, Fl.isNan, Bool.false_eq_true, if_false, hr, normalizedCv_embed mn mx c hr,
+      e1, gt_embed mn mx etas c m hr hlen, disp0_embed, disp2_embed, hresh, spreads_embed, riskMin_embed, nanmean_embed]
+    have hcol : ∀ i : Nat, nonEmpty (PyVec.column Fl.nan
+        ((Confidence.chunks etas.length c.length (dispCvHand mn mx etas c m)).map (List.map optNatFl)) (i : Int)) = true := by
+      intro i
+      have : 0 < (Confidence.chunks etas.length c.length (dispCvHand mn mx etas c m)).length := by
+        rw [length_chunks]; exact hlen
+      cases hM : Confidence.chunks etas.length c.length (dispCvHand mn mx etas c m) with
+      | nil => rw [hM] at this; simp at this
+      | cons r M => rfl
+    simp [reshapeRowsOk, reshapeOk, length_repeatEach, sameLen, full, embedQ, zip2, hlen, length_twoDimEtas, mapR, mapL, maskSet,
+      length_pixelCmp mn mx etas c m hlen, length_dispCvHand mn mx etas c m hlen, Nat.mul_comm, toNat_mul_cast, allRange, hcol,
+      inRange, tabulate, hs, length_npRepeat]
+    exact ⟨rfl, rfl⟩
+
 end Pandora.C12Kernels
